@@ -47,16 +47,29 @@ fn apply_op(files: &mut BTreeMap<String, Vec<u8>>, op: &JournalOp, data: Option<
     }
 }
 
-/// byte-class boundaries of a block file: inside the length prefix, around the header end, in and
-/// after the first transaction, one byte short
+/// byte-class boundaries of a block file: inside the length prefix of the file, inside and around
+/// the end of the 389-byte header, at every field boundary (and inside the last field) of the
+/// 16-byte length prefix of the first and of the last transaction, in and after the first
+/// transaction, one byte short
 fn cuts(data: &[u8]) -> Vec<usize> {
-    const HEADER: usize = 301;
-    let mut v = vec![0usize, 3, 4, HEADER - 1, HEADER, HEADER + 1, HEADER + 16];
+    const HEADER: usize = saito_core::core::consensus::block::BLOCK_HEADER_SIZE;
+    let mut v = vec![0usize, 3, 4, 300, 301, 302, 317, HEADER - 1, HEADER, HEADER + 1];
+    let prefix = |v: &mut Vec<usize>, at: usize| v.extend([at + 2, at + 4, at + 8, at + 12, at + 13, at + 15, at + 16, at + 17]);
+    prefix(&mut v, HEADER);
     // the wallet file: inside / at the end of the private key, inside the public key
     v.extend([1usize, 31, 32, 33, 64]);
     if data.len() > HEADER + 40 {
         v.push(HEADER + (data.len() - HEADER) / 3);
         v.push(HEADER + 2 * (data.len() - HEADER) / 3);
+        if let Ok(b) = saito_core::core::consensus::block::Block::deserialize_from_net(data) {
+            let mut at = HEADER;
+            for (i, tx) in b.transactions.iter().enumerate() {
+                if i > 0 && i + 1 == b.transactions.len() {
+                    prefix(&mut v, at);
+                }
+                at += tx.serialize_for_net().len();
+            }
+        }
     }
     if !data.is_empty() {
         v.push(data.len() - 1);
